@@ -771,6 +771,22 @@ pub fn load_defs_file(path: &str) -> (Vec<String>, GDict) {
     (lines, d)
 }
 
+/// the (group name, member name) pairs of the side file `<name>.rules` next to a defs file (empty if there is none)
+pub fn load_rules(defs_path: &str) -> Vec<(String, String)> {
+    let p = defs_path.trim_end_matches(".defs").to_string() + ".rules";
+    let text = std::fs::read_to_string(p).unwrap_or_default();
+    text.lines()
+        .filter_map(|l| {
+            let t: Vec<&str> = l.split(' ').collect();
+            if t.len() == 3 && t[0] == "grule" {
+                Some((unhex_str(t[1])?, unhex_str(t[2])?))
+            } else {
+                None
+            }
+        })
+        .collect()
+}
+
 /// every `<avp>` element of a defs file, in document order (including those a later element of the same key replaces)
 pub fn load_defs_elements(path: &str) -> Vec<GDef> {
     let text = std::fs::read_to_string(path).expect("defs file");
@@ -2149,6 +2165,15 @@ fn gen_c07(o: &mut Out, r: &mut Rng, d: &GDict, tier: &str) {
             o.case(&format!("announce L={} b0={}", l, b0));
             // nothing after the prefix
             o.line(&format!("sdec 1 d:{}", hex(&pre)));
+            // (the same on a runtime that has no time driver: refusing a length needs no timer)
+            if l <= 64 || l % 4096 <= 20 {
+                o.line(&format!("sdecnt 1 d:{},e", hex(&pre)));
+                if l >= 20 && l <= 4096 {
+                    let mut f = hdr.clone();
+                    f.resize(l, 0);
+                    o.line(&format!("sdecnt 2 d:{}", hex(&f)));
+                }
+            }
             o.line(&format!("sdec 1 d:{},e", hex(&pre)));
             // prefix split across deliveries
             o.line(&format!("sdec 1 d:{},p,d:{},d:{}", hex(&pre[..1]), hex(&pre[1..3]), hex(&pre[3..])));
@@ -3572,6 +3597,17 @@ fn gen_c15(o: &mut Out, r: &mut Rng, _tier: &str, extra: &[String]) {
                 o.line(&format!("dget {} {}", e.code, vend(e.vendor)));
             }
         }
+        // every grouped definition of a shipped document with a member the dictionary has no entry for (M clear, M set; no
+        // vendor, the group's vendor): the group is no licence to guess what the member is
+        for g in d.defs.iter().filter(|x| x.ty == T_GROUPED) {
+            o.case(&format!("shipped group {} {} with unknown member", g.code, vend(g.vendor)));
+            for (mv, fl) in [(None, 0u8), (None, 0x40), (g.vendor.or(Some(10415)), 0), (Some(99999), 0x20)] {
+                let unk = GA { code: 70000, vendor: mv, flags: fl, v: GV::Oct(vec![1, 2, 3, 4]) };
+                let mut m = header(r);
+                m.avps.push(GA { code: g.code, vendor: g.vendor, flags: 0x40, v: GV::Grp(vec![unk]) });
+                o.line(&format!("dec {}", hex(&m.encode(&mut None))));
+            }
+        }
         for def in &d.defs {
             o.case(&format!("shipped {} {}", def.code, vend(def.vendor)));
             o.line(&format!("dget {} {}", def.code, vend(def.vendor)));
@@ -4058,6 +4094,26 @@ pub fn generate(family: &str, seed: u64, tier: &str, extra: &[String], w: &mut d
                     m.ops(&mut r, &mut ls);
                     o.lines(&ls);
                     o.line("rt");
+                }
+                // groups of a shipped dictionary with the members their <rule> children name, each member two and three times:
+                // the rules are documentation - how often a member occurs is the sender's business
+                if !lines.is_empty() {
+                    for (gname, mname) in load_rules(name) {
+                        let (g, mdef) = match (d.defs.iter().find(|x| x.name == gname && x.ty == T_GROUPED), d.defs.iter().find(|x| x.name == mname && x.ty < 16)) {
+                            (Some(g), Some(m)) => (g.clone(), m.clone()),
+                            _ => continue,
+                        };
+                        for reps in [2usize, 3] {
+                            let one = if mdef.ty == T_GROUPED { GA { code: mdef.code, vendor: mdef.vendor, flags: 0x40, v: GV::Grp(vec![]) } } else { avp_of(&mut r, d, &mdef, 0, 0) };
+                            let mut m = header(&mut r);
+                            m.avps.push(GA { code: g.code, vendor: g.vendor, flags: 0x40, v: GV::Grp(vec![one; reps]) });
+                            o.case(&format!("rule member x{} group={} member={}", reps, g.code, mdef.code));
+                            let mut ls = vec![];
+                            m.ops(&mut r, &mut ls);
+                            o.lines(&ls);
+                            o.line("rt");
+                        }
+                    }
                 }
                 // nesting exactly around the limit
                 if !d.by_type(T_GROUPED).is_empty() && !d.by_type(T_U32).is_empty() {
